@@ -3,9 +3,10 @@
 
    H   : HMAC-SHA256 under the BNG's secret, an arbitrary function argument
    e   : environment of a run (H, cookie lifetime, wall clock, subscriber-group matcher)
-   variant = four flags (owner check, id-0 guard, id reservation, guarded index removal).
-   Repaired = all four; Head = /repo HEAD (first two, committed as b12b708 / 731c2cc); HeadReserve = Head + id
-   reservation; Defective = none (the code as first found).
+   variant = the four repairs made during this work as flags (owner check b12b708, id-0 guard 731c2cc, id
+   reservation 46cb3dc, guarded index removal 9893c59).  Repaired = all four = /repo HEAD; the main theorems are
+   about it (stated for every variant that has the flags a theorem needs).  Unreserved / ReserveOnly / GuardOnly /
+   Defective lack some of them and only appear in the `_refuted` theorems, which record what each fix removed.
    reserving v = id-0 guard and reservation present; owning v = reserving v and owner check present.
    alive s x = x is in sidIndex or sessions, or has been built by a handlePADR that has not indexed it yet. *)
 From Coq Require Import List ZArith NArith Bool Lia Arith.
@@ -194,26 +195,25 @@ Print Assumptions C04_sessions_only_from_padr.
 (* after ANY history — any packets, restores of fresh non-zero ids, any counter position, any number of
    long-lived sessions, across the 16-bit wrap, and ANY interleaving of the two halves (allocation / indexing)
    of any number of concurrent PADRs — all sessions alive in the table have pairwise distinct ids in 1..65535.
-   Holds for every variant with the id-0 guard and id reservation (Repaired, HeadReserve). *)
+   Holds for every variant with the id-0 guard and id reservation (Repaired, ReserveOnly). *)
 Theorem C04_sid_distinct_nonzero : forall v e ops s outs x y, reserving v ->
   run v e st0 ops = Some (s, outs) -> alive s x -> alive s y ->
   0 < s_sid x < 65536 /\ (s_sid x = s_sid y -> x = y).
 Proof. exact sid_distinct_nonzero. Qed.
 Print Assumptions C04_sid_distinct_nonzero.
 
-(* /repo HEAD (no reservation yet): the same for every history in which no two PADRs overlap between
-   allocateSessionID and addToIndexes — the hypothesis excludes exactly the recorded finding
-   concurrent-padr-same-session-id *)
-Theorem C04_sid_distinct_nonzero_head : forall e ops s outs x y, Forall no_overlap ops ->
-  run Head e st0 ops = Some (s, outs) -> alive s x -> alive s y ->
+(* historical: before 46cb3dc (no reservation) the same held only for histories in which no two PADRs overlap
+   between allocateSessionID and addToIndexes *)
+Theorem C04_sid_distinct_nonzero_unreserved : forall e ops s outs x y, Forall no_overlap ops ->
+  run Unreserved e st0 ops = Some (s, outs) -> alive s x -> alive s y ->
   0 < s_sid x < 65536 /\ (s_sid x = s_sid y -> x = y).
-Proof. exact sid_distinct_nonzero_head. Qed.
-Print Assumptions C04_sid_distinct_nonzero_head.
+Proof. exact sid_distinct_nonzero_unreserved. Qed.
+Print Assumptions C04_sid_distinct_nonzero_unreserved.
 
-(* HEAD, the excluded schedule: exactly one id k free, two PADRs with valid cookies both pass
+(* ... and this is the schedule that hypothesis excluded (fixed in 46cb3dc): exactly one id k free, two PADRs with valid cookies both pass
    allocateSessionID before either indexes: both are answered with k, and after both have indexed two
    sessions in the table carry the same session-id.  (Replayed on the real code: harness op P with a gate
-   in the AccessResolver; corpus / FULLSCALE case; known finding concurrent-padr-same-session-id.) *)
+   in the AccessResolver; it reproduced on the code before 46cb3dc and is part of every run as a regression case.) *)
 Theorem C04_race_refuted : forall v e s tA tB pA pB tgA tgB k,
   v_reserve v = false -> 0 < norm_next v (next s) < 65536 -> 0 < k < 65536 -> pend s = [] ->
   by_sid s !! k = None -> (forall j, 0 < j < 65536 -> j <> k -> by_sid s !! j <> None) ->
@@ -274,6 +274,20 @@ Theorem C04_sid_nonzero_refuted : exists e ops s outs x,
 Proof. exact sid_nonzero_refuted. Qed.
 Print Assumptions C04_sid_nonzero_refuted.
 
+(* c.sessions is keyed by the string "mac:svlan:cvlan" (c.sessionKey); the model keys by the tuple.  The two
+   agree because the rendering is injective on 6-byte MACs and uint16 VLANs: distinct subscribers never share
+   a key, whatever their digits.  (The check also observes the equivalence classes of the real sessionKey.) *)
+Theorem C04_session_key_injective : forall t1 t2, wf_key_tuple t1 -> wf_key_tuple t2 ->
+  session_key t1 = session_key t2 -> t1 = t2.
+Proof. exact session_key_injective. Qed.
+Print Assumptions C04_session_key_injective.
+
+(* a rendering that drops the separator is not: svlan|cvlan 12|3 and 1|23 read the same *)
+Example C04_session_key_nonvacuous :
+  dec 12 ++ dec 3 = dec 1 ++ dec 23 /\ session_key (fst (fst tA), 12, 3) <> session_key (fst (fst tA), 1, 23).
+Proof. exact key_without_separator_collides. Qed.
+Print Assumptions C04_session_key_nonvacuous.
+
 (* ---------------------------------------------------------------- isolation *)
 (* sidIndex and sessions (the lookup paths of PADT and session-stage packets): a packet from tuple t
    (PADI, PADR or its first half, PADT, any session-stage packet incl. one that sets the Username) leaves every
@@ -326,23 +340,22 @@ Theorem C04_isolation_history : forall v e t0, owning v -> v_guard_remove v = tr
 Proof. exact isolation_run. Qed.
 Print Assumptions C04_isolation_history.
 
-(* /repo HEAD (owner check committed; removal not yet guarded): isolation on sidIndex / sessions, the two
-   indexes PADT and session packets look a session up in; PADRs not overlapping *)
-Theorem C04_isolation_head : forall e s o s' r t, pend s = [] -> no_overlap o -> Inv s -> sender o = Some t ->
-  step Head e s o = Some (s', r) ->
+(* historical: before 46cb3dc / 9893c59 isolation held on sidIndex / sessions only, and for non-overlapping PADRs *)
+Theorem C04_isolation_unreserved : forall e s o s' r t, pend s = [] -> no_overlap o -> Inv s -> sender o = Some t ->
+  step Unreserved e s o = Some (s', r) ->
   (forall k x, by_sid s !! k = Some x -> s_tup x <> t -> by_sid s' !! k = Some x) /\
   (forall t', t' <> t -> by_tup s' !! t' = by_tup s !! t') /\
   (forall k x, by_sid s' !! k = Some x -> by_sid s !! k = Some x \/ s_tup x = t) /\
   (forall u, r = OTerm u \/ r = OReach u -> exists x, live s x /\ s_uid x = u /\ s_tup x = t).
-Proof. exact isolation_head. Qed.
-Print Assumptions C04_isolation_head.
+Proof. exact isolation_unreserved. Qed.
+Print Assumptions C04_isolation_unreserved.
 
-(* HEAD, what the unguarded removal allows: host A gives its own session host B's Username (CHAP Response,
+(* what the unguarded removal allowed (fixed in 9893c59): host A gives its own session host B's Username (CHAP Response,
    stored before AAA answers) and PADTs its own session; B's usernameIndex entry is gone although B's session
-   is untouched in sidIndex.  Known finding remove-deletes-index-entry-of-another-session. *)
+   is untouched in sidIndex. *)
 Theorem C04_attr_remove_refuted : exists e ops s outs xB s' r,
-  run Head e st0 ops = Some (s, outs) /\ by_attr s !! bob = Some xB /\ s_tup xB = tB /\ tA <> tB /\
-  step Head e s (PADT tA 8) = Some (s', r) /\ by_attr s' !! bob = None /\ by_sid s' !! 7 = Some xB.
+  run Unreserved e st0 ops = Some (s, outs) /\ by_attr s !! bob = Some xB /\ s_tup xB = tB /\ tA <> tB /\
+  step Unreserved e s (PADT tA 8) = Some (s', r) /\ by_attr s' !! bob = None /\ by_sid s' !! 7 = Some xB.
 Proof. exact attr_remove_refuted. Qed.
 Print Assumptions C04_attr_remove_refuted.
 
